@@ -19,6 +19,7 @@ func checkC03(e *Engine, r *Report) {
 		"R6 ancestor capping: AllocatableSharedCPU and AllocatableReservedCPU start from 1000*|own set| minus the subtree's grants and take the minimum with the same quantity of every ancestor; node.Granted…CPU sums its own and all children's grants",
 		"R2 eligibility table: cpuAllocationPreferences returns exclusive cores only for Guaranteed containers that are not preserve/reserved/sub-core/shared-preferring (and for >= 2 cores with a fraction only when explicitly annotated unshared); BestEffort gets no capacity; isolated CPUs are taken only when all requested cores can be isolated",
 		"data-flow cpu.shares: applyGrant sets the CPU weight to MilliCPUToShares of the granted portion (or 1000 per exclusive CPU when there is no portion), using the reserved portion for reserved-class grants",
+		"round 4: six capacity scenarios through compareScores; score capacities are the allocatable capacities less the request; reserved-class requests never reach takeCPUs (sign abstraction); cpu.shares encode the portion of the grant's own class; annotation lookups: absent value unused, present value used",
 	}
 	r.NotDecided = []string{"the inequality 'granted <= 1000 mCPU per CPU' itself over all histories (an inductive value invariant)", "non-emptiness of the allowed CPU set of every pinned container"}
 	r.Assumptions = []string{"the pool tree is finite and acyclic (Parent() chains end in a nil node)"}
